@@ -110,6 +110,38 @@ impl Fam<'_> {
         self.judge("elements:repeat-of-a-fresh-cell", "f := (len: int) -> any { n := mut 0; mk := () -> mut int { n += 1; return mut *n }; r := [mk(); len]; return (std.len(r), *n) }; (f(0), f(1), f(4))", "((0, 1), (1, 1), (4, 1))");
         self.judge("elements:repeat-of-a-fresh-container", "n := mut 0; mk := () -> (mut int, int) { n += 1; return (mut *n, *n) }; r := [mk(); 3]; r[2].0 = 9; ([*r[0].0, *r[1].0], *n)", "([9, 9], 1)");
         self.judge("elements:repeat-of-a-fresh-container", "n := mut 0; mk := () -> [int] { n += 1; return [*n] }; r := [mk(); 3]; (r, *n)", "([[1], [1], [1]], 1)");
+        // a value used on both sides of an operation / as its own argument
+        for (src, want) in [
+            ("a := [1, 2]; a + a", "[1, 2, 1, 2]"),
+            ("a := [hi(1), 2]; (a + a, a)", "([1, 2, 1, 2], [1, 2])"),
+            ("s := \"ab\"; (s + s, s)", "(\"abab\", \"ab\")"),
+            ("c := mut [1]; c += *c; c += *c; *c", "[1, 1, 1, 1]"),
+            ("c := mut \"a\"; c += *c; c += *c; *c", "\"aaaa\""),
+            ("c := mut 3; c *= *c; c -= *c; *c", "0"),
+            ("c := mut 3; r := c = *c + 1; (r, *c)", "(4, 4)"),
+            ("a := [1, 2, 3]; (a[a[0]], a[a[0]:a[2]], a[std.len(a) - 1])", "(2, [2, 3], 3)"),
+            ("a := [1, 2, 3]; a~ @ (x: int) -> int { return a[x - 1] * 10 } $]", "[10, 20, 30]"),
+            ("a := [3, 1, 2]; a~ ? (x: int) -> bool { return x != a[0] } $]", "[1, 2]"),
+            ("t := (1, 2); ((t, t).0.1, (t, t).1.0, [t, t][1] == t)", "(2, 1, true)"),
+            ("f := (g: any, n: int) -> int { if n == 0 { return 7 } if h: (any, int) -> int = g { return h(h, n - 1) } return 0 - 1 }; f(f, 3)", "7"),
+            ("s := struct{a := 1}; u := struct{x := s, y := s}; (u.x == u.y, u.x.a + u.y.a)", "(true, 2)"),
+            ("it := [1, 2, 3]~; (it $], it $], it())", "([1, 2, 3], [], (false, 0))"),
+            ("a := [[1], [2]]; (a + a)[3] == a[1]", "true"),
+            ("x := 5; (x, x) == (x, x)", "true"),
+        ] {
+            let full = format!("hi := (v: int) -> int {{ return v }}; {src}");
+            // the last one observes an exhausted payload: only its first two components are specified
+            if src.contains("it())") {
+                self.rep.evaluations += 1;
+                if let Outcome::Value(v) = real::parse_exec(&format!("hi := (v: int) -> int {{ return v }}; it := [1, 2, 3]~; (it $], it $])"), true) {
+                    if canon(&v) != "([1, 2, 3], [])" {
+                        self.rep.violation(&format!("{}:order-family:self-application", self.prop.to_lowercase()), &format!("collecting one iterator twice gave {}", canon(&v)), "diff", &full);
+                    }
+                }
+                continue;
+            }
+            self.judge("self-application", &full, want);
+        }
         self.settings("arguments", "g := (x: int, y: int, z: int) -> (int, int, int) { return (x, y, z) }; ", "g(*c, bump(), *c)", "((5, 7, 7), 7)");
         self.settings("arguments:nested-call", "g := (x: int, y: int) -> int { return x * 100 + y }; ", "g(g(*c, bump()), *c)", "(50707, 7)");
         self.settings("function-then-arguments", "fs := [(x: int) -> int { return x + 1000 }, (x: int) -> int { return x + 2000 }, (x: int) -> int { return x + 3000 }]; ", "fs[bump() - 7](*c)", "(1007, 7)");
